@@ -110,7 +110,13 @@ def main():
     shutil.copy(patch, os.path.join(out, "patch.diff"))
     if demo:
         shutil.copy(demo, os.path.join(out, os.path.basename(demo)))
-    meta_out = {"property": pid, "name": name, "summary": meta.get("summary"), "needs_to_manifest": meta.get("needs_to_manifest"),
+    first = None
+    try:
+        prev = json.load(open(os.path.join(out, "meta.json")))
+        first = prev.get("first_contact") or {"checks": prev.get("checks"), "note": "outcome of the first run of the checks against this change, before any strengthening"}
+    except Exception:
+        pass
+    meta_out = {"first_contact": first, "property": pid, "name": name, "summary": meta.get("summary"), "needs_to_manifest": meta.get("needs_to_manifest"),
                 "seeded_by": "independent sub-agent given only the property text and a scratch worktree",
                 "confirmation": res, "checks": checks, "ran": ran}
     json.dump(meta_out, open(os.path.join(out, "meta.json"), "w"), indent=1)
